@@ -3,7 +3,8 @@
 They wrap namespaced methods of the node classes from the outside.  If the wrapped names disappear the probe
 reports nothing, and the violation is then reported as an ordinary VIOLATION (fail-safe direction)."""
 
-counters = {'prefilter_drops': 0, 'partial_list_prune': 0, 'list_index_clipped': 0}
+counters = {'prefilter_drops': 0, 'partial_list_prune': 0, 'list_index_clipped': 0, 'colliding_index_keys': 0}
+installed = {'collision': False}
 _installed = False
 
 
@@ -49,5 +50,26 @@ def install():
                 counters['list_index_clipped'] += 1
             return orig_set(self, index, value, strict=strict)
         ConfigList._set = _set
+    except Exception:
+        pass
+    try:
+        # a mapping merged onto a list in which two keys spell one element (1 and -2 on a list of three): the document writes that
+        # element twice, so the order of its keys matters by construction (used to *skip* the key-permutation relation, C15)
+        from awesomeyaml.nodes.list import ConfigList
+        lns = ConfigList.__dict__['ayns']
+        orig_merge = lns._names['on_merge_impl']
+
+        def on_merge_impl(self, prefix, other):
+            if isinstance(other, dict):
+                n, idx = len(self), []
+                for key in other.ayns.children_names():
+                    k = key.ayns.native_value if hasattr(key, 'ayns') else key
+                    if isinstance(k, int) and not isinstance(k, bool) and -n <= k < n:
+                        idx.append(k % n)
+                if len(idx) != len(set(idx)):
+                    counters['colliding_index_keys'] += 1
+            return orig_merge(self, prefix, other)
+        lns._names['on_merge_impl'] = on_merge_impl
+        installed['collision'] = True
     except Exception:
         pass
